@@ -148,20 +148,22 @@ def rule_V1(ctx: Ctx) -> None:
         ddef = X.assignments_to(f.node, parts[0])
         slot = {"store": X.U(st[0]), "direction": [X.U(x) for x in ddef]}
         # direction = index of the differing coordinate
-        dir_ok = len(ddef) == 1 and X.U(ddef[0]).replace(" ", "") in ("(c_start!=c_end).argmax()", "np.argmax(c_start!=c_end)", "int((c_start!=c_end).argmax())", "(c_end!=c_start).argmax()")
+        dir_ok = len(ddef) == 1 and X.same_expr(ddef[0], "(c_start!=c_end).argmax()", "int((c_start!=c_end).argmax())", "(c_end!=c_start).argmax()", "int((c_end!=c_start).argmax())")
         # lesser endpoint in direction d
-        sel = [n for n in ast.walk(f.node) if isinstance(n, ast.If) and isinstance(n.test, ast.Compare) and f"[{parts[0]}]" in X.U(n.test)]
+        # normalised shape: `x, y = A if A[d] < B[d] else B`
+        sel = [n for n in ast.walk(f.node) if isinstance(n, ast.Assign) and isinstance(n.value, ast.IfExp) and isinstance(n.value.test, ast.Compare)
+               and f"[{parts[0]}]" in X.U(n.value.test)]
         les_ok = None
         if len(sel) == 1:
-            t = sel[0].test
+            t = sel[0].value.test
             a = N.compare_atom(t.left, t.ops[0], t.comparators[0])
             lt = N.compare_atom(X.expr_of(f"c_start[{parts[0]}]"), ast.Lt(), X.expr_of(f"c_end[{parts[0]}]"))
             le = N.compare_atom(X.expr_of(f"c_start[{parts[0]}]"), ast.LtE(), X.expr_of(f"c_end[{parts[0]}]"))
             gt = N.compare_atom(X.expr_of(f"c_start[{parts[0]}]"), ast.Gt(), X.expr_of(f"c_end[{parts[0]}]"))
             ge = N.compare_atom(X.expr_of(f"c_start[{parts[0]}]"), ast.GtE(), X.expr_of(f"c_end[{parts[0]}]"))
-            then_src = [X.U(s.value) for s in sel[0].body if isinstance(s, ast.Assign)]
-            else_src = [X.U(s.value) for s in sel[0].orelse if isinstance(s, ast.Assign)]
-            tgt_ok = all(X.U(s.targets[0]).replace(" ", "") in (f"{parts[1]},{parts[2]}", f"({parts[1]},{parts[2]})") for s in [*sel[0].body, *sel[0].orelse] if isinstance(s, ast.Assign))
+            then_src = [X.U(sel[0].value.body)]
+            else_src = [X.U(sel[0].value.orelse)]
+            tgt_ok = X.U(sel[0].targets[0]).replace(" ", "") in (f"{parts[1]},{parts[2]}", f"({parts[1]},{parts[2]})")
             if a.key() in (lt.key(), le.key()):
                 les_ok = then_src == ["c_start"] and else_src == ["c_end"] and tgt_ok
             elif a.key() in (gt.key(), ge.key()):
@@ -169,6 +171,9 @@ def rule_V1(ctx: Ctx) -> None:
             else:
                 les_ok = False
             slot["selection"] = X.U(t)
+        elif [n for n in ast.walk(f.node) if isinstance(n, ast.If) and f"[{parts[0]}]" in X.U(n.test)]:
+            les_ok = False
+            slot["selection"] = "endpoint selection in an unfamiliar statement shape"
         val_ok = isinstance(st[0].value, ast.Constant) and st[0].value.value is True
         ok = None if les_ok is None else (dir_ok and les_ok and val_ok)
     ctx.judge(f, ok, slot, exp, "rebuilding a maze from its adjacency list stores the bit at the greater endpoint / in the wrong layer")
